@@ -76,7 +76,8 @@ def fxx(x, centre, span):
 
 
 def _observe(job):
-    mname, shape, n, seed = job
+    mname, shape, n, seed = job[:4]
+    past = job[4] if len(job) > 4 else seed      # which kind of past the instance has (varies over models and shapes)
     rs = np.random.RandomState(seed)
     X = data(shape, n, rs)
     fac = dict(models())[mname]
@@ -85,7 +86,7 @@ def _observe(job):
     try:
         np.random.seed(seed)
         m = fac(X)
-        if seed % 3 == 1:
+        if past % 3 == 1:
             # a third of the models are instances with a past: fitted to a narrower sample lying to the right of this one and queried
             try:
                 old = X[: max(5, len(X) // 3)] * 0.2 + (np.max(X) + 1.0)
@@ -93,6 +94,16 @@ def _observe(job):
                 m.cumulative_distribution(old[:3].copy())
                 m.percent_point(np.array([0.3, 0.6]))
                 m.probability_density(old[:3].copy())
+                m.sample(2)
+            except Exception:
+                pass
+        elif past % 3 == 2:
+            # another third held a point mass before (a constant column; the constant is 0.0, integer 0, 5.0 or -2e6 in turn) and answered queries with it
+            try:
+                c = (0.0, 0, 5.0, -2.0e6)[(past // 3) % 4]
+                m.fit(np.full(11, c))
+                m.cumulative_distribution(np.array([c - 1.0, c + 1.0]))
+                m.percent_point(np.array([0.5]))
                 m.sample(2)
             except Exception:
                 pass
@@ -268,6 +279,13 @@ def _constant(job):
            'ppfIsC': True, 'sampleIsC': True}
     try:
         m = fac(X)
+        if n % 4 == 0:      # an instance that modelled non-constant data before
+            try:
+                Y = np.random.RandomState(n).normal(c + 3.0, 2.0, 40)
+                m.fit(Y)
+                m.cumulative_distribution(Y[:3].copy())
+            except Exception:
+                pass
         m.fit(X.copy())
         below = np.array([c - 1.0, np.nextafter(c, -np.inf), c - 1e-9 * max(1.0, abs(c))])
         at = np.array([c, np.nextafter(c, np.inf), c + 1.0])
@@ -290,7 +308,7 @@ def run(ctx):
     ctx.assumptions = ['inverse identities on q in [1e-3, 1-1e-3]; monotonicity of percent_point on [0,1] incl. 1e-6 from the ends',
                        'tolerances: 1e-6 in probability, 1e-4 of the data range in x, quadrature bound 4|I6-I3| + 3e-6 + 1e-4|dF|']
     sizes = (50,) if quick else (5, 50, 500)
-    jobs = [(mn, sh, n, ctx.seed * 31 + i) for i, (mn, _) in enumerate(models()) for sh in SHAPES for n in sizes
+    jobs = [(mn, sh, n, ctx.seed * 31 + i, ctx.seed + i + 4 * si) for i, (mn, _) in enumerate(models()) for si, sh in enumerate(SHAPES) for n in sizes
             if not (n == 5 and sh in ('bimodal',))]
     cjobs = [(mn, c, n) for mn, _ in models() for c, n in ((3.5, 20), (0.0, 12), (-2.0e6, 8))]
     with Pool(16) as pool:
